@@ -1,14 +1,16 @@
 """Which module decides which property."""
-from . import codec, corecheck, race
+from . import codec, corecheck, persist, race
 
 CHECKS = {p: corecheck.check for p in corecheck.PROPS}
-CHECKS.update({"C01": codec.check, "C02": codec.check, "C09": race.check})
+CHECKS.update({"C01": codec.check, "C02": codec.check, "C09": race.check, "C13": persist.check, "C14": persist.check})
 
 
 def replay(doc: dict) -> int:
     kind = doc.get("kind")
     if kind == "gateway-history":
         return corecheck.replay(doc)
+    if kind in ("persist-load", "persist-roundtrip"):
+        return persist.replay(doc)
     if kind == "race-schedule":
         return race.replay(doc)
     if kind == "codec-case":
